@@ -380,14 +380,18 @@ def mergeRuns : List GRun → List GRun
   | l => l
 termination_by l => l.length
 
+/-- white space alone between two tags is not a text run (it is disregarded *before* neighbouring runs
+    under the same tags are joined, as for SubRip: `Spec.SRT.runsOf` flushes nothing for it) -/
 def normLine (l : GLine) : GLine :=
-  { l with runs := (mergeRuns l.runs).filter fun r => trimSpace r.text ≠ [] }
+  { l with runs := (mergeRuns (l.runs.filter fun r => trimSpace r.text ≠ [])).filter fun r => trimSpace r.text ≠ [] }
 
 def sortRegions (l : List GRegion) : List GRegion := l.mergeSort fun a b => !(String.ofList b.id < String.ofList a.id)
 
 def norm (g : GDoc) : GDoc :=
   { g with regions := sortRegions g.regions,
-           cues := g.cues.map fun c => { c with lines := (c.lines.map normLine).filter fun l => !l.runs.isEmpty } }
+           -- the white space around a comment line is not part of the comment
+           cues := g.cues.map fun c => { c with comments := c.comments.map trimSpace,
+                                                lines := (c.lines.map normLine).filter fun l => !l.runs.isEmpty } }
 
 end VTT
 end Spec
